@@ -16,6 +16,9 @@ mod sub_sampled;
 mod uncompressed;
 mod write_util;
 
+#[cfg(dds_verif)]
+pub(crate) use bc7::verif as bc7_verif;
+
 use bc::*;
 use bi_planar::*;
 pub(crate) use encoder::EncoderSet;
